@@ -674,7 +674,14 @@ def check_inactive(c: dict) -> list:
         b = parameter_beam_from(P, c["energy"])
     before = beam_vec(b)
     el = cheetah.BPM(is_active=False) if c["element"] == "BPM" else build_screen(c["screen"], c["method"], F64, active=False)
-    out = el.track(b)
+    if c["element"] == "Screen" and c.get("blocking"):
+        el.is_blocking = True          # a blocking screen that is moved out of the beam (inactive) blocks nothing
+    if c.get("via") == "call":
+        out = el(b)
+    elif c.get("via") == "segment":
+        out = cheetah.Segment([el]).track(b)
+    else:
+        out = el.track(b)
     # clause: inactive diagnostics let the beam pass unchanged
     for label, got in (("outgoing", beam_vec(out)), ("incoming (mutated)", beam_vec(b))):
         for key in before:
@@ -695,7 +702,8 @@ def gen_inactive(rng) -> dict:
     sv[0] = 1.0
     return {"kind": "inactive", "element": E.pick(rng, "Screen", "BPM"), "beam": E.pick(rng, "ParticleBeam", "ParameterBeam"),
             "method": E.pick(rng, "histogram", "kde"), "screen": gen_screen_cfg(rng), "energy": E.energy(rng),
-            "particles": gen_particles(rng, n).tolist(), "charges": (rng.uniform(0.3, 1.7, n) * 1e-13).tolist(), "survival": sv.tolist()}
+            "particles": gen_particles(rng, n).tolist(), "charges": (rng.uniform(0.3, 1.7, n) * 1e-13).tolist(), "survival": sv.tolist(),
+            "blocking": bool(rng.random() < 0.5), "via": E.pick(rng, "track", "track", "call", "segment")}
 
 
 # ------------------------------------------------------------------------------------------------
